@@ -112,6 +112,14 @@ end
 
 /-! ### the layout is valid -/
 
+/-- `peek_scal` for variables too: they start with `@` -/
+theorem peek_scalX {s : Scal} (hs : s.ValidX) (X : Bytes) (hX : X.head? ≠ some 61) :
+    firstFieldPeek (s.text ++ X) = false := by
+  rcases hs with h | ⟨hq, r, hb, _⟩ | ⟨hq, body, hb, _⟩
+  · exact peek_scal h X hX
+  · simp [Scal.text, hq, hb, firstFieldPeek]
+  · simp [Scal.text, hq, hb, firstFieldPeek]
+
 theorem blank_nlInd (c : UInt8) (hc : isBlank c = true) (f d : Nat) : Blank (nlInd c f d) :=
   blank_nl_ind c hc f d
 
@@ -179,11 +187,11 @@ theorem peek_elems (c : UInt8) (f d : Nat) (hc : isBlank c = true) (rest : GVals
       cases v with
       | scal s =>
         simp only [GVal.Good] at hr
-        have hs := Writer.scall_valid s hr.1
+        have hs := Writer.scall_validX s hr.1
         simp only [gtextV] at hd2
-        rw [skipWs_scal hs] at hd2
+        rw [skipWs_scalX hs] at hd2
         cases hd2
-        exact peek_scal hs _ (head_gtextVs c f (d + 1) _ r _ (by simp [nlInd]))
+        exact peek_scalX hs _ (head_gtextVs c f (d + 1) _ r _ (by simp [nlInd]))
       | empty fl => simp [GVal.isBraced] at hb
       | obj fl fs => simp [GVal.isBraced] at hb
       | arrS u a r' => simp [GVal.isBraced] at hb
@@ -213,12 +221,12 @@ theorem valid_glayV (c : UInt8) (f : Nat) (hc : isBlank c = true) : ∀ (v : GVa
     Blank g → v.Good → StartsBoundary after → JValidV (glayV c f d g v) after
   | .scal s, d, g, after, hg, h, ha => by
     simp only [GVal.Good] at h
-    exact ⟨hg, Or.inl (Writer.scall_valid s h), fun _ => ha⟩
+    exact ⟨hg, (Writer.scall_validX s h), fun _ => ha⟩
   | .empty fl, d, g, after, hg, _, _ => ⟨hg, Writer.blank_sp⟩
   | .obj fl (.cons k o v r), d, g, after, hg, h, ha => by
     simp only [GVal.Good] at h
     obtain ⟨hk, hv, hr⟩ := h
-    refine ⟨hg, blank_nlInd c hc f (d + 1), blank_gapOf _, blank_nlInd c hc f d, Or.inl (Writer.scall_valid k hk),
+    refine ⟨hg, blank_nlInd c hc f (d + 1), blank_gapOf _, blank_nlInd c hc f d, (Writer.scall_validX k hk),
       fun _ => sb_key_op _, ?_, ?_⟩
     · apply valid_glayV c f hc v (d + 1) _ _ (blank_gapOf _) hv
       rw [render_glayF c f r (d + 1) hr]
@@ -229,7 +237,7 @@ theorem valid_glayV (c : UInt8) (f : Nat) (hc : isBlank c = true) : ∀ (v : GVa
   | .arrS u first rest, d, g, after, hg, h, ha => by
     simp only [GVal.Good] at h
     obtain ⟨hf, hr⟩ := h
-    refine ⟨hg, blank_nlInd c hc f (d + 1), blank_nlInd c hc f d, Or.inl (Writer.scall_valid first hf), fun _ => ?_, ?_, ?_⟩
+    refine ⟨hg, blank_nlInd c hc f (d + 1), blank_nlInd c hc f d, (Writer.scall_validX first hf), fun _ => ?_, ?_, ?_⟩
     · rw [render_glayVs c f rest (d + 1) false hr]
       exact sb_gtextVs c f (d + 1) false rest _ (sb_nlInd c f d _)
     · rw [render_glayVs c f rest (d + 1) false hr]
@@ -249,7 +257,7 @@ theorem valid_glayF (c : UInt8) (f : Nat) (hc : isBlank c = true) : ∀ (fs : GF
   | .cons k o v r, d, after, h, ha => by
     simp only [GFields.Good] at h
     obtain ⟨hk, hv, hr⟩ := h
-    refine ⟨blank_nlInd c hc f d, blank_gapOf _, Or.inl (Writer.scall_valid k hk), fun _ => sb_key_op _, ?_,
+    refine ⟨blank_nlInd c hc f d, blank_gapOf _, (Writer.scall_validX k hk), fun _ => sb_key_op _, ?_,
       valid_glayF c f hc r d after hr ha⟩
     apply valid_glayV c f hc v d _ _ (blank_gapOf _) hv
     rw [render_glayF c f r d hr]
@@ -257,7 +265,7 @@ theorem valid_glayF (c : UInt8) (f : Nat) (hc : isBlank c = true) : ∀ (fs : GF
   | .hdr k o hh body r, d, after, h, ha => by
     simp only [GFields.Good] at h
     obtain ⟨hk, hhv, hcont, hb, hr⟩ := h
-    refine ⟨blank_nlInd c hc f d, blank_gapOf _, blank_gapOf _, Or.inl (Writer.scall_valid k hk), fun _ => sb_key_op _,
+    refine ⟨blank_nlInd c hc f d, blank_gapOf _, blank_gapOf _, (Writer.scall_validX k hk), fun _ => sb_key_op _,
       hhv, rfl, ?_, isContainer_glayV c f d _ body hb hcont, ?_, valid_glayF c f hc r d after hr ha⟩
     · rw [render_glayV c f body d _ hb]
       exact sb_of_head (c := 32) (by simp) Writer.bnd_sp
@@ -320,7 +328,7 @@ theorem valid_glayRoot (c : UInt8) (f : Nat) (hc : isBlank c = true) (fs : GFiel
   | cons k o v r =>
     simp only [GFields.Good] at h
     obtain ⟨hk, hv, hr⟩ := h
-    refine ⟨.nil, blank_gapOf _, Or.inl (Writer.scall_valid k hk), fun _ => sb_key_op _, ?_,
+    refine ⟨.nil, blank_gapOf _, (Writer.scall_validX k hk), fun _ => sb_key_op _, ?_,
       valid_glayF c f hc r 0 [] hr hnil⟩
     apply valid_glayV c f hc v 0 _ _ (blank_gapOf _) hv
     rw [render_glayF c f r 0 hr]
@@ -328,7 +336,7 @@ theorem valid_glayRoot (c : UInt8) (f : Nat) (hc : isBlank c = true) (fs : GFiel
   | hdr k o hh body r =>
     simp only [GFields.Good] at h
     obtain ⟨hk, hhv, hcont, hb, hr⟩ := h
-    refine ⟨.nil, blank_gapOf _, blank_gapOf _, Or.inl (Writer.scall_valid k hk), fun _ => sb_key_op _,
+    refine ⟨.nil, blank_gapOf _, blank_gapOf _, (Writer.scall_validX k hk), fun _ => sb_key_op _,
       hhv, rfl, ?_, isContainer_glayV c f 0 _ body hb hcont, ?_, valid_glayF c f hc r 0 [] hr hnil⟩
     · rw [render_glayV c f body 0 _ hb]
       exact sb_of_head (c := 32) (by simp) Writer.bnd_sp
